@@ -31,6 +31,7 @@ import rules
 
 REPO = os.environ.get('VERIF_REPO', '/repo')
 HERE = os.path.dirname(os.path.abspath(__file__))
+VERIF_DIR = os.path.dirname(HERE)
 
 
 class LostAnchor(Exception):
@@ -148,7 +149,8 @@ def _kv(words):
 class SourceFile:
     def __init__(self, rel):
         self.rel = rel
-        self.path = os.path.join(REPO, rel)
+        # `verif:` sources are bridge files of /verif compiled by BOTH verifiers (DESIGN 2.3)
+        self.path = os.path.join(VERIF_DIR, rel[6:]) if rel.startswith('verif:') else os.path.join(REPO, rel)
         if not os.path.exists(self.path):
             raise LostAnchor('source file missing: ' + rel)
         self.src = open(self.path).read()
